@@ -1,22 +1,47 @@
-(** C15 - correspondence (model at binary64 vs implementation, bit for bit) and property oracles
-    (exact rational recomputation of the textbook estimates / of the documented recurrences on the
-    implementation's own outputs).  Does not depend on the proofs. *)
-From Coq Require Import List NArith ZArith QArith Bool Floats.
-From LinfaVerif Require Export Common.Num Common.NdSum Common.Run Common.QF Common.Fma C09.Model C15.Model.
+(** C15 - correspondence (model vs implementation, bit for bit) and property oracles (exact rational
+    recomputation of the textbook estimates / of the documented recurrences on the implementation's own
+    outputs).  Does not depend on the proofs.
+
+    One generic evaluator [fops T], instantiated with binary64 (PrimFloat, against the `f64` learners) and
+    with binary32 (SpecFloat at precision 24, against the `f32` learners).  Case values always cross as
+    binary64 literals: every f32 is an f64, [x_in] brings it back exactly. *)
+From Coq Require Import List NArith ZArith QArith Bool Floats SpecFloat.
+From LinfaVerif Require Export Common.Num Common.NdSum Common.Run Common.QF Common.B32 Common.Fma
+  C09.Model C15.Model C15.ModelRepaired.
 Import ListNotations.
 
-Definition o64 := B64_ops.
-Definition twopi64 : float := 0x1.921fb54442d18p+2%float.
+Record fops (T : Type) := mkFops {
+  x_o : NumOps T;             (* the arithmetic of the element type *)
+  x_okm : NumOps T;           (* k-means: `L2Dist::distance` takes its square root in f64 (C09) *)
+  x_fma : T -> T -> T -> T;
+  x_twopi : T;                (* F::cast(2 * PI) *)
+  x_eq : T -> T -> bool;      (* bit equality (all NaNs identified) *)
+  x_in : float -> T;          (* exact on the values of a case *)
+  x_out : T -> float;         (* exact *)
+  x_tsc : Q;                  (* scale of the rational tolerances: 1 at binary64, 2^26 at binary32 *)
+  x_rel : float               (* relative tie window of the batch-vs-history prediction oracle *)
+}.
+Arguments x_o {T}. Arguments x_okm {T}. Arguments x_fma {T}. Arguments x_twopi {T}. Arguments x_eq {T}.
+Arguments x_in {T}. Arguments x_out {T}. Arguments x_tsc {T}. Arguments x_rel {T}.
 
-(* the logarithm enters as a table computed by the harness with the very `f64::ln` the library calls *)
-Fixpoint tab_ln (tab : list (float * float)) (x : float) : float :=
-  match tab with
-  | [] => nan
-  | (a, b) :: t => if PrimFloat.eqb a x then b else tab_ln t x
-  end.
+Definition x64 : fops float :=
+  {| x_o := B64_ops; x_okm := B64_ops; x_fma := fma64; x_twopi := 0x1.921fb54442d18p+2%float;
+     x_eq := f64_biteq; x_in := fun v => v; x_out := fun v => v; x_tsc := 1%Q; x_rel := 0x1p-20%float |}.
 
-Definition vec_eqb (a b : list float) : bool := list_eqb f64_biteq a b.
-Definition mat_eqb (a b : list (list float)) : bool := list_eqb vec_eqb a b.
+(** `L2Dist::distance` at f32 is `F::from(a.l2_dist(&b).unwrap())`: ndarray-stats widens the f32 squared
+    distance to f64 (exact), takes the f64 square root, linfa-nn rounds the result back to f32 *)
+Definition sqrt32_via64 (v : spec_float) : spec_float := b32_of_b64 (SFsqrt 53 1024 v).
+Definition B32km_ops : NumOps spec_float :=
+  {| zero := zero B32_ops; one := one B32_ops;
+     add := add B32_ops; sub := sub B32_ops; mul := mul B32_ops; div := div B32_ops;
+     opp := opp B32_ops; abs := abs B32_ops; sqrt := sqrt32_via64;
+     ltb := ltb B32_ops; leb := leb B32_ops; eqb := eqb B32_ops; of_N := of_N B32_ops |}.
+Definition x32 : fops spec_float :=
+  {| x_o := B32_ops; x_okm := B32km_ops; x_fma := fma32;
+     x_twopi := S754_finite false 13176795 (-21);      (* 2 pi rounded to binary32 = 0x40C90FDB *)
+     x_eq := sf_eqb; x_in := fun v => b32_of_b64 (Prim2SF v); x_out := SF2Prim;
+     x_tsc := 67108864%Q; x_rel := 0x1p-8%float |}.
+
 Fixpoint list_eqb2 {A B} (e : A -> B -> bool) (l1 : list A) (l2 : list B) : bool :=
   match l1, l2 with
   | [], [] => true
@@ -26,12 +51,19 @@ Fixpoint list_eqb2 {A B} (e : A -> B -> bool) (l1 : list A) (l2 : list B) : bool
 Definition lorl (l : list N) : N := fold_left N.lor l 0%N.
 Definition optN_eqb (a b : option N) : bool :=
   match a, b with Some x, Some y => N.eqb x y | None, None => true | _, _ => false end.
+Fixpoint cut {A} (cuts : list N) (l : list A) : list (list A) :=
+  match cuts with
+  | [] => []
+  | c :: t => firstn (N.to_nat c) l :: cut t (skipn (N.to_nat c) l)
+  end.
 
-(** * naive Bayes *)
+(** * case records (shared by both element types) *)
 Record nbinfo := { i_label : N; i_count : N; i_prior : float; i_v1 : list float; i_v2 : list float }.
 (* gaussian: v1 = theta, v2 = sigma; multinomial: v1 = feature_count, v2 = feature_log_prob *)
 Record nbhist := { h_cuts : list N; h_final : list nbinfo; h_pred : list (option N) }.
 Record nbcase := {
+  n_f32 : bool;                         (* the learner was instantiated at f32 *)
+  n_repaired : bool;                    (* the checked-out gaussian_nb.rs carries the repair of F12 *)
   n_multinomial : bool; n_param : float; n_d : N;
   n_X : list (list float); n_y : list N;
   n_batch : list nbinfo; n_batch_pred : list (option N);
@@ -39,53 +71,19 @@ Record nbcase := {
   n_exact : bool;                       (* multinomial: integer data, sums are exact *)
   n_hists : list nbhist }.
 
-Fixpoint cut {A} (cuts : list N) (l : list A) : list (list A) :=
-  match cuts with
-  | [] => []
-  | c :: t => firstn (N.to_nat c) l :: cut t (skipn (N.to_nat c) l)
-  end.
+Record kstep := { ks_X : list (list float); ks_centroids : list (list float); ks_counts : list float;
+                  ks_inertia : float; ks_ok : bool }.
+Record kcase := { kc_f32 : bool; kc_metric : metric; kc_tol : float; kc_init : list (list float);
+                  kc_steps : list kstep }.
 
-Definition ginfo_eqb (a : N * @ginfo float) (b : nbinfo) : bool :=
-  N.eqb (fst a) (i_label b) && N.eqb (g_count (snd a)) (i_count b) && f64_biteq (g_prior (snd a)) (i_prior b)
-  && vec_eqb (g_theta (snd a)) (i_v1 b) && vec_eqb (g_sigma (snd a)) (i_v2 b).
-Definition minfo_eqb (a : N * @minfo float) (b : nbinfo) : bool :=
-  N.eqb (fst a) (i_label b) && N.eqb (m_count (snd a)) (i_count b) && f64_biteq (m_prior (snd a)) (i_prior b)
-  && vec_eqb (m_fcount (snd a)) (i_v1 b) && vec_eqb (m_flp (snd a)) (i_v2 b).
+Record fstep := { fs_X : list (list float); fs_y : list bool; fs_p : list float;
+                  fs_z : list float; fs_n : list float; fs_w : list float }.
+Record fcase := { fc_f32 : bool; fc_alpha : float; fc_beta : float; fc_l1 : float; fc_l2 : float; fc_d : N;
+                  fc_z0 : list float; fc_n0 : list float; fc_w0 : list float; fc_steps : list fstep }.
 
-Definition to_g (l : list nbinfo) : gstate (F := float) :=
-  map (fun b => (i_label b, {| g_count := i_count b; g_prior := i_prior b; g_theta := i_v1 b; g_sigma := i_v2 b |})) l.
-Definition to_m (l : list nbinfo) : mstate (F := float) :=
-  map (fun b => (i_label b, {| m_count := i_count b; m_prior := i_prior b; m_fcount := i_v1 b; m_flp := i_v2 b |})) l.
-
-Definition nb_state_corr (c : nbcase) (bs : list (list (list float) * list N)) (impl : list nbinfo) : bool :=
-  let d := N.to_nat (n_d c) in
-  if n_multinomial c
-  then list_eqb2 minfo_eqb (mnb_history o64 (tab_ln (n_ln c)) (n_param c) d bs) impl
-  else list_eqb2 ginfo_eqb (gnb_history o64 fma64 (n_param c) d bs) impl.
-
-Definition nb_predict (c : nbcase) (impl : list nbinfo) (q : list float) : option N :=
-  if n_multinomial c then mnb_predict o64 (tab_ln (n_ln c)) (to_m impl) q
-  else gnb_predict o64 (tab_ln (n_ln c)) twopi64 (to_g impl) q.
-Definition nb_jll (c : nbcase) (impl : list nbinfo) (q : list float) : list (N * float) :=
-  if n_multinomial c then map (fun ci => (fst ci, mnb_jll o64 (tab_ln (n_ln c)) (snd ci) q)) (to_m impl)
-  else map (fun ci => (fst ci, gnb_jll o64 (tab_ln (n_ln c)) twopi64 (snd ci) q)) (to_g impl).
-
-Definition batches_of (c : nbcase) (cuts : list N) : list (list (list float) * list N) :=
-  combine (cut cuts (n_X c)) (cut cuts (n_y c)).
-
-(* corr bits: 1 batch-fit state, 2 history state, 4 prediction *)
-Definition nb_corr (c : nbcase) : N :=
-  (flag (nb_state_corr c [(n_X c, n_y c)] (n_batch c)) 1
-   + flag (forallb (fun h => nb_state_corr c (batches_of c (h_cuts h)) (h_final h)) (n_hists c)) 2
-   + flag (list_eqb optN_eqb (map (nb_predict c (n_batch c)) (n_query c)) (n_batch_pred c)
-           && forallb (fun h => match h_pred h with
-                                | [] => true
-                                | p => list_eqb optN_eqb (map (nb_predict c (h_final h)) (n_query c)) p
-                                end) (n_hists c)) 4)%N.
-
-(** ** oracle: the textbook estimates in exact arithmetic.  Every float is m * 2^e; all data of a case are
-       scaled to integers by the smallest exponent [emin] met, sums and sums of squares are formed over Z
-       (no gcd anywhere), and only the final comparisons go through Q. *)
+(** * exact rational helpers.  Every float is m * 2^e; all data of a case are scaled to integers by the
+      smallest exponent [emin] met, sums and sums of squares are formed over Z (no gcd anywhere), and only the
+      final comparisons go through Q. *)
 Definition f64_me (x : float) : Z * Z :=
   match Prim2SF x with
   | S754_finite s m e => ((if s then Zneg m else Zpos m), e)
@@ -108,6 +106,8 @@ Definition Qmaxl (l : list Q) : Q := fold_left (fun a b => if Qle_bool a b then 
 Definition Qclose (tol : Q) (x : float) (q : Q) : bool :=
   f64_finite x && Qle_bool (Qabs' (f64_Q x - q)) tol.
 Definition tol32 : Q := 1 # 4294967296.
+Definition tol40 : Q := 1 # 1099511627776.
+Definition tol44 : Q := 1 # 17592186044416.
 
 Definition rows_c (c : N) (X : list (list float)) (y : list N) : list (list float) :=
   map fst (filter (fun p => N.eqb (snd p) c) (combine X y)).
@@ -115,10 +115,10 @@ Definition absmax (X : list (list float)) : Q :=
   let xs := concat X in
   let emin := emin_of xs in
   inject_Z (fold_left (fun a x => Z.max a (Z.abs (toZ emin x))) xs 0%Z) * Qpow2 emin.
+Definition fabs (x : float) := PrimFloat.abs x.
+Definition near (rel : float) (a b : float) : bool :=
+  PrimFloat.leb (fabs (PrimFloat.sub a b)) (PrimFloat.mul rel (PrimFloat.add 1 (PrimFloat.add (fabs a) (fabs b)))).
 
-(* oracle bits (naive Bayes): 1 classes/counts, 2 priors, 4 mean / feature count, 8 variance of the single fit /
-   log-prob relation, 65536 variance after an incremental history, 16 prediction is not a maximiser of the
-   joint log-likelihood, 32 history and batch predictions differ away from a tie, 64 shape *)
 Record truth := { t_label : N; t_count : nat; t_m : list Q; t_v : list Q }.
 (* per class: exact count, exact means (multinomial: exact feature sums), exact smoothed variances *)
 Definition nb_truth (c : nbcase) (emin : Z) (eps : Q) : list truth :=
@@ -130,58 +130,120 @@ Definition nb_truth (c : nbcase) (emin : Z) (eps : Q) : list truth :=
                    t_v := map (fun j => if n_multinomial c then 0%Q else (var_q emin (Zcol emin j rows) + eps)%Q) js |})
       (labels (n_y c)).
 
-Definition nb_info_ok (c : nbcase) (vbit : N) (n : nat) (M tolm tolv : Q) (tb : truth * nbinfo) : N :=
+Definition count_eq (ms : list nat) (c : nat) : N := N.of_nat (length (filter (Nat.eqb c) ms)).
+Definition assigned (c : nat) (log : list (nat * list float)) : list (list float) :=
+  map snd (filter (fun p => Nat.eqb (fst p) c) log).
+
+Section Generic.
+Context {T : Type} (X : fops T).
+Let o := x_o X.
+Let okm := x_okm X.
+Let cv (v : float) : T := x_in X v.
+Let cvl (l : list float) : list T := map (x_in X) l.
+Let cvm (m : list (list float)) : list (list T) := map (map (x_in X)) m.
+Definition vec_eqb (a b : list T) : bool := list_eqb (x_eq X) a b.
+Definition mat_eqb (a b : list (list T)) : bool := list_eqb vec_eqb a b.
+Definition fin (v : T) : bool := f64_finite (x_out X v).
+
+(* the logarithm enters as a table computed by the harness with the very `ln` the library calls *)
+Fixpoint tab_ln (tab : list (T * T)) (x : T) : T :=
+  match tab with
+  | [] => cv nan
+  | (a, b) :: t => if eqb o a x then b else tab_ln t x
+  end.
+Definition ln_of (c : nbcase) : T -> T := tab_ln (map (fun p => (cv (fst p), cv (snd p))) (n_ln c)).
+
+(** ** naive Bayes *)
+Definition ginfo_eqb (a : N * @ginfo T) (b : nbinfo) : bool :=
+  N.eqb (fst a) (i_label b) && N.eqb (g_count (snd a)) (i_count b) && x_eq X (g_prior (snd a)) (cv (i_prior b))
+  && vec_eqb (g_theta (snd a)) (cvl (i_v1 b)) && vec_eqb (g_sigma (snd a)) (cvl (i_v2 b)).
+Definition minfo_eqb (a : N * @minfo T) (b : nbinfo) : bool :=
+  N.eqb (fst a) (i_label b) && N.eqb (m_count (snd a)) (i_count b) && x_eq X (m_prior (snd a)) (cv (i_prior b))
+  && vec_eqb (m_fcount (snd a)) (cvl (i_v1 b)) && vec_eqb (m_flp (snd a)) (cvl (i_v2 b)).
+
+Definition to_g (l : list nbinfo) : gstate (F := T) :=
+  map (fun b => (i_label b, {| g_count := i_count b; g_prior := cv (i_prior b);
+                               g_theta := cvl (i_v1 b); g_sigma := cvl (i_v2 b) |})) l.
+Definition to_m (l : list nbinfo) : mstate (F := T) :=
+  map (fun b => (i_label b, {| m_count := i_count b; m_prior := cv (i_prior b);
+                               m_fcount := cvl (i_v1 b); m_flp := cvl (i_v2 b) |})) l.
+
+Definition nb_state_corr (c : nbcase) (ln : T -> T) (bs : list (list (list T) * list N)) (impl : list nbinfo) : bool :=
+  let d := N.to_nat (n_d c) in
+  if n_multinomial c
+  then list_eqb2 minfo_eqb (mnb_history o ln (cv (n_param c)) d bs) impl
+  else if n_repaired c
+       then list_eqb2 ginfo_eqb (gnb_history_repaired o (x_fma X) (cv (n_param c)) d bs) impl
+       else list_eqb2 ginfo_eqb (gnb_history o (x_fma X) (cv (n_param c)) d bs) impl.
+
+Definition nb_jll (c : nbcase) (ln : T -> T) (impl : list nbinfo) (q : list T) : list (N * T) :=
+  if n_multinomial c then map (fun ci => (fst ci, mnb_jll o ln (snd ci) q)) (to_m impl)
+  else map (fun ci => (fst ci, gnb_jll o ln (x_twopi X) (snd ci) q)) (to_g impl).
+Definition nb_predict (c : nbcase) (ln : T -> T) (impl : list nbinfo) (q : list T) : option N :=
+  argmax o (nb_jll c ln impl q).
+
+(* corr bits: 1 batch-fit state, 2 history state, 4 prediction *)
+Definition nb_corr (c : nbcase) : N :=
+  let ln := ln_of c in
+  let Xs := cvm (n_X c) in
+  let qs := cvm (n_query c) in
+  let batches_of cuts := combine (cut cuts Xs) (cut cuts (n_y c)) in
+  (flag (nb_state_corr c ln [(Xs, n_y c)] (n_batch c)) 1
+   + flag (forallb (fun h => nb_state_corr c ln (batches_of (h_cuts h)) (h_final h)) (n_hists c)) 2
+   + flag (list_eqb optN_eqb (map (nb_predict c ln (n_batch c)) qs) (n_batch_pred c)
+           && forallb (fun h => match h_pred h with
+                                | [] => true
+                                | p => list_eqb optN_eqb (map (nb_predict c ln (h_final h)) qs) p
+                                end) (n_hists c)) 4)%N.
+
+(* oracle bits (naive Bayes): 1 classes/counts, 2 priors, 4 mean / feature count, 8 variance of the single fit /
+   log-prob relation, 65536 variance after an incremental history, 16 prediction is not a maximiser of the
+   joint log-likelihood, 32 history and batch predictions differ away from a tie, 64 shape *)
+Definition nb_info_ok (c : nbcase) (ln : T -> T) (vbit : N) (n : nat) (M tolm tolv : Q) (tb : truth * nbinfo) : N :=
   let '(t, b) := tb in
   let d := N.to_nat (n_d c) in
   (flag (N.eqb (i_label b) (t_label t) && N.eqb (i_count b) (N.of_nat (t_count t)) && negb (N.eqb (i_count b) 0)) 1
-   + flag (f64_biteq (i_prior b) (PrimFloat.div (of_N o64 (i_count b)) (of_N o64 (N.of_nat n)))) 2
+   + flag (x_eq X (cv (i_prior b)) (div o (of_N o (i_count b)) (of_N o (N.of_nat n)))) 2
    + flag (Nat.eqb (length (i_v1 b)) d && Nat.eqb (length (i_v2 b)) d) 64
    + (if n_multinomial c then
-        let sm := map (fun v => PrimFloat.add v (n_param c)) (i_v1 b) in
-        let cnt := usum o64 sm in
+        let sm := map (fun v => add o v (cv (n_param c))) (cvl (i_v1 b)) in
+        let cnt := usum o sm in
         flag (forallb (fun xq => if n_exact c then f64_finite (fst xq) && Qeq_bool (f64_Q (fst xq)) (snd xq)
-                                 else Qclose (tol32 * M * inject_Z (Z.of_nat n)) (fst xq) (snd xq))
+                                 else Qclose (x_tsc X * tol32 * M * inject_Z (Z.of_nat n)) (fst xq) (snd xq))
                       (combine (i_v1 b) (t_m t))) 4
-        + flag (vec_eqb (map (fun x => PrimFloat.sub (tab_ln (n_ln c) x) (tab_ln (n_ln c) cnt)) sm) (i_v2 b)) 8
+        + flag (vec_eqb (map (fun x => sub o (ln x) (ln cnt)) sm) (cvl (i_v2 b))) 8
       else
         flag (forallb (fun xq => Qclose tolm (fst xq) (snd xq)) (combine (i_v1 b) (t_m t))) 4
         + flag (forallb (fun xq => Qclose tolv (fst xq) (snd xq)) (combine (i_v2 b) (t_v t))) vbit))%N.
 
-(* tolerances: means 2^-40 of the data scale M; variances 2^-32 of the largest exact variance + 2^-44 M^2 *)
-Definition tol40 : Q := 1 # 1099511627776.
-Definition tol24 : Q := 1 # 16777216.
-Definition tol44 : Q := 1 # 17592186044416.
-Definition nb_state_ok (c : nbcase) (vbit : N) (M : Q) (tr : list truth) (impl : list nbinfo) : N :=
+(* tolerances: means 2^-40 of the data scale M; variances 2^-32 of the largest exact variance + 2^-44 M^2
+   (binary32: 2^-14, 2^-6 and 2^-18) *)
+Definition nb_state_ok (c : nbcase) (ln : T -> T) (vbit : N) (M : Q) (tr : list truth) (impl : list nbinfo) : N :=
   let n := length (n_X c) in
-  let tolm := (tol40 * M)%Q in
-  let tolv := (tol32 * Qmaxl (concat (map t_v tr)) + tol44 * M * M)%Q in
+  let tolm := (x_tsc X * tol40 * M)%Q in
+  let tolv := (x_tsc X * (tol32 * Qmaxl (concat (map t_v tr)) + tol44 * M * M))%Q in
   N.lor (flag (list_eqb N.eqb (map i_label impl) (map t_label tr)) 1)
-        (lorl (map (nb_info_ok c vbit n M tolm tolv) (combine tr impl))).
-
-Definition fabs (x : float) := PrimFloat.abs x.
-Definition near (rel : float) (a b : float) : bool :=
-  PrimFloat.leb (fabs (PrimFloat.sub a b)) (PrimFloat.mul rel (PrimFloat.add 1 (PrimFloat.add (fabs a) (fabs b)))).
+        (lorl (map (nb_info_ok c ln vbit n M tolm tolv) (combine tr impl))).
 
 (* the predicted class attains the maximal joint log-likelihood of the implementation's own state, ties go
    to the smallest label; a NaN likelihood is answered by a panic (None) *)
-Definition pred_ok (jl : list (N * float)) (p : option N) : bool :=
-  let hasnan := existsb (fun cv => negb (PrimFloat.eqb (snd cv) (snd cv))) jl in
+Definition pred_ok (jl : list (N * T)) (p : option N) : bool :=
+  let hasnan := existsb (fun kv => negb (eqb o (snd kv) (snd kv))) jl in
   match p with
   | None => hasnan || match jl with [] => true | _ => false end
   | Some k =>
       negb hasnan &&
       match look k jl with
       | None => false
-      | Some v => forallb (fun cv => PrimFloat.leb (snd cv) v
-                                     && (negb (PrimFloat.eqb (snd cv) v) || N.leb k (fst cv))) jl
+      | Some v => forallb (fun kv => leb o (snd kv) v && (negb (eqb o (snd kv) v) || N.leb k (fst kv))) jl
       end
   end.
 
-Definition pred_same (jl : list (N * float)) (pb ph : option N) : bool :=
+Definition pred_same (jl : list (N * T)) (pb ph : option N) : bool :=
   match pb, ph with
   | Some a, Some b =>
       N.eqb a b || match look a jl, look b jl with
-                   | Some va, Some vb => near 0x1p-20%float va vb
+                   | Some va, Some vb => near (x_rel X) (x_out X va) (x_out X vb)
                    | _, _ => false
                    end
   | None, None => true
@@ -189,20 +251,22 @@ Definition pred_same (jl : list (N * float)) (pb ph : option N) : bool :=
   end.
 
 Definition nb_oracle (c : nbcase) : N :=
+  let ln := ln_of c in
+  let qs := cvm (n_query c) in
   let M := absmax (n_X c) in
   let d := N.to_nat (n_d c) in
   let emin := emin_of (concat (n_X c)) in
   let eps := if n_multinomial c then 0%Q
              else (f64_Q (n_param c) * Qmaxl (map (fun j => var_q emin (Zcol emin j (n_X c))) (seq 0 d)))%Q in
   let tr := nb_truth c emin eps in
-  let jb := map (nb_jll c (n_batch c)) (n_query c) in
-  (N.lor (nb_state_ok c 8 M tr (n_batch c)) (lorl (map (fun h => nb_state_ok c 65536 M tr (h_final h)) (n_hists c)))
+  let jb := map (nb_jll c ln (n_batch c)) qs in
+  (N.lor (nb_state_ok c ln 8 M tr (n_batch c)) (lorl (map (fun h => nb_state_ok c ln 65536 M tr (h_final h)) (n_hists c)))
    + flag (forallb (fun jp => pred_ok (fst jp) (snd jp)) (combine jb (n_batch_pred c))
            && Nat.eqb (length (n_batch_pred c)) (length (n_query c))
            && forallb (fun h => match h_pred h with
                                 | [] => true
                                 | p => forallb (fun jp => pred_ok (fst jp) (snd jp))
-                                               (combine (map (nb_jll c (h_final h)) (n_query c)) p)
+                                               (combine (map (nb_jll c ln (h_final h)) qs) p)
                                 end) (n_hists c)) 16
    + flag (forallb (fun h => match h_pred h with
                              | [] => true
@@ -210,27 +274,19 @@ Definition nb_oracle (c : nbcase) : N :=
                                             (zip3 jb (n_batch_pred c) p)
                              end) (n_hists c)) 32)%N.
 
-(** * mini-batch k-means *)
-Record kstep := { ks_X : list (list float); ks_centroids : list (list float); ks_counts : list float;
-                  ks_inertia : float; ks_ok : bool }.
-Record kcase := { kc_metric : metric; kc_tol : float; kc_init : list (list float); kc_steps : list kstep }.
-
-Definition kstate_eqb (s : kstate (F := float) * bool) (k : kstep) : bool :=
-  mat_eqb (k_centroids (fst s)) (ks_centroids k) && vec_eqb (k_counts (fst s)) (ks_counts k)
-  && f64_biteq (k_inertia (fst s)) (ks_inertia k) && Bool.eqb (snd s) (ks_ok k).
+(** ** mini-batch k-means *)
+Definition kstate_eqb (s : kstate (F := T) * bool) (k : kstep) : bool :=
+  mat_eqb (k_centroids (fst s)) (cvm (ks_centroids k)) && vec_eqb (k_counts (fst s)) (cvl (ks_counts k))
+  && x_eq X (k_inertia (fst s)) (cv (ks_inertia k)) && Bool.eqb (snd s) (ks_ok k).
 
 (* corr bit 8: some step of the history differs from the model run on the same history *)
-Fixpoint km_corr_go (m : metric) (tol : float) (st : kstate) (steps : list kstep) : bool :=
+Fixpoint km_corr_go (m : metric) (tol : T) (st : kstate) (steps : list kstep) : bool :=
   match steps with
   | [] => true
-  | k :: r => let s := km_fit_with o64 m tol st (ks_X k) in kstate_eqb s k && km_corr_go m tol (fst s) r
+  | k :: r => let s := km_fit_with okm m tol st (cvm (ks_X k)) in kstate_eqb s k && km_corr_go m tol (fst s) r
   end.
 Definition km_corr (c : kcase) : N :=
-  flag (km_corr_go (kc_metric c) (kc_tol c) (k_init o64 (kc_init c)) (kc_steps c)) 8.
-
-Definition count_eq (ms : list nat) (c : nat) : N := N.of_nat (length (filter (Nat.eqb c) ms)).
-Definition assigned (c : nat) (log : list (nat * list float)) : list (list float) :=
-  map snd (filter (fun p => Nat.eqb (fst p) c) log).
+  flag (km_corr_go (kc_metric c) (cv (kc_tol c)) (k_init okm (cvm (kc_init c))) (kc_steps c)) 8.
 
 (* oracle bits (k-means): 128 counts not cumulative, 256 centroid is not the running mean of the points
    assigned so far / untouched centroid moved, 512 converged flag untruthful, 1024 inertia is not the mean
@@ -240,28 +296,28 @@ Fixpoint km_oracle_go (m : metric) (tol : float) (init prev : list (list float))
   match steps with
   | [] => 0%N
   | k :: r =>
-      let a := assign o64 m prev (ks_X k) in
+      let a := assign okm m (cvm prev) (cvm (ks_X k)) in
       let ms := map fst a in
       let log' := log ++ combine ms (ks_X k) in
       let kk := length init in
       let d := match init with [] => 0%nat | c0 :: _ => length c0 end in
       let shape := Nat.eqb (length (ks_centroids k)) kk && Nat.eqb (length (ks_counts k)) kk
                    && forallb (fun c => Nat.eqb (length c) d && forallb f64_finite c) (ks_centroids k) in
-      let cum := forallb (fun c => f64_biteq (nth c (ks_counts k) nan)
-                                     (PrimFloat.add (nth c pcnt nan) (of_N o64 (count_eq ms c))))
+      let cum := forallb (fun c => x_eq X (cv (nth c (ks_counts k) nan))
+                                     (add o (cv (nth c pcnt nan)) (of_N o (count_eq ms c))))
                          (seq 0 kk)
-                 && f64_biteq (seq_sum o64 (ks_counts k)) (of_N o64 (N.of_nat (length log'))) in
+                 && x_eq X (seq_sum o (cvl (ks_counts k))) (of_N o (N.of_nat (length log'))) in
       let mean_ok := forallb (fun c =>
                        let pts := assigned c log' in
                        let cen := nth c (ks_centroids k) [] in
                        match pts with
-                       | [] => vec_eqb cen (nth c init [])
-                       | _ => forallb (fun j => Qclose (tol40 * M) (nth j cen nan) (mean_q emin (Zcol emin j pts)))
+                       | [] => list_eqb f64_biteq cen (nth c init [])
+                       | _ => forallb (fun j => Qclose (x_tsc X * tol40 * M) (nth j cen nan) (mean_q emin (Zcol emin j pts)))
                                       (seq 0 d)
                        end) (seq 0 kk) in
-      let flag_ok := Bool.eqb (ks_ok k) (PrimFloat.ltb (dist o64 m (concat prev) (concat (ks_centroids k))) tol) in
-      let inertia_ok := f64_biteq (ks_inertia k)
-                          (PrimFloat.div (usum o64 (map snd a)) (of_N o64 (N.of_nat (length (ks_X k))))) in
+      let flag_ok := Bool.eqb (ks_ok k) (ltb o (dist okm m (concat (cvm prev)) (concat (cvm (ks_centroids k)))) (cv tol)) in
+      let inertia_ok := x_eq X (cv (ks_inertia k))
+                          (div o (usum o (map snd a)) (of_N o (N.of_nat (length (ks_X k))))) in
       N.lor (flag shape 2048 + flag cum 128 + flag mean_ok 256 + flag flag_ok 512 + flag inertia_ok 1024)%N
             (km_oracle_go m tol init (ks_centroids k) (ks_counts k) log' M emin r)
   end.
@@ -270,44 +326,49 @@ Definition km_oracle (c : kcase) : N :=
   km_oracle_go (kc_metric c) (kc_tol c) (kc_init c) (kc_init c) (map (fun _ => 0%float) (kc_init c)) [] M
                (emin_of (concat (concat (map ks_X (kc_steps c))))) (kc_steps c).
 
-(** * FTRL *)
-Record fstep := { fs_X : list (list float); fs_y : list bool; fs_p : list float;
-                  fs_z : list float; fs_n : list float; fs_w : list float }.
-Record fcase := { fc_alpha : float; fc_beta : float; fc_l1 : float; fc_l2 : float; fc_d : N;
-                  fc_z0 : list float; fc_n0 : list float; fc_w0 : list float; fc_steps : list fstep }.
-Definition fpar (c : fcase) : fparams (F := float) :=
-  {| f_alpha := fc_alpha c; f_beta := fc_beta c; f_l1 := fc_l1 c; f_l2 := fc_l2 c |}.
+(** ** FTRL *)
+Definition fpar (c : fcase) : fparams (F := T) :=
+  {| f_alpha := cv (fc_alpha c); f_beta := cv (fc_beta c); f_l1 := cv (fc_l1 c); f_l2 := cv (fc_l2 c) |}.
 
 (* corr bits: 16 z/n after some update differ from the model, 32 get_weights differs *)
-Fixpoint ftrl_corr_go (p : fparams) (d : nat) (st : list float * list float) (steps : list fstep) : N :=
+Fixpoint ftrl_corr_go (p : fparams) (d : nat) (st : list T * list T) (steps : list fstep) : N :=
   match steps with
   | [] => 0%N
   | s :: r =>
-      let st' := ftrl_update o64 p d st (fs_X s, fs_y s, fs_p s) in
-      N.lor (flag (vec_eqb (fst st') (fs_z s) && vec_eqb (snd st') (fs_n s)) 16
-             + flag (vec_eqb (ftrl_weights o64 p (fs_z s) (fs_n s)) (fs_w s)) 32)%N
+      let st' := ftrl_update o p d st (cvm (fs_X s), fs_y s, cvl (fs_p s)) in
+      N.lor (flag (vec_eqb (fst st') (cvl (fs_z s)) && vec_eqb (snd st') (cvl (fs_n s))) 16
+             + flag (vec_eqb (ftrl_weights o p (cvl (fs_z s)) (cvl (fs_n s))) (cvl (fs_w s))) 32)%N
             (ftrl_corr_go p d st' r)
   end.
 Definition ftrl_corr (c : fcase) : N :=
-  N.lor (flag (vec_eqb (ftrl_weights o64 (fpar c) (fc_z0 c) (fc_n0 c)) (fc_w0 c)) 32)
-        (ftrl_corr_go (fpar c) (N.to_nat (fc_d c)) (fc_z0 c, fc_n0 c) (fc_steps c)).
+  N.lor (flag (vec_eqb (ftrl_weights o (fpar c) (cvl (fc_z0 c)) (cvl (fc_n0 c))) (cvl (fc_w0 c))) 32)
+        (ftrl_corr_go (fpar c) (N.to_nat (fc_d c)) (cvl (fc_z0 c), cvl (fc_n0 c)) (fc_steps c)).
+End Generic.
 
-(* oracle bits (FTRL): 4096 a weight is zero although |z| > l1, or non-zero although |z| <= l1;
-   8192 n' is not n + g^2; 16384 z' is not z + g - sigma w (g recomputed exactly from the batch);
-   32768 shape / non-finite state; 16777216 a non-zero weight is not the proximal closed form *)
+(** FTRL oracles: the values are binary64 literals in both instantiations (comparisons and exact rationals do
+    not depend on the element type); only the tolerance scale [tsc] does.
+    oracle bits (FTRL): 4096 a weight is zero although |z| > l1, or non-zero although |z| <= l1;
+    8192 n' is not n + g^2; 16384 z' is not z + g - sigma w (g recomputed exactly from the batch);
+    32768 shape / non-finite state; 16777216 a non-zero weight is not the proximal closed form *)
 Definition zero_iff (l1 : float) (z w : float) : bool :=
   Bool.eqb (PrimFloat.eqb w 0) (PrimFloat.leb (fabs z) l1).
 (* a non-zero weight is the documented closed form (sgn z * l1 - z) / ((sqrt n + beta) / alpha + l2):
-   w * denominator is compared with the numerator over Q (the square root is the correctly rounded float one) *)
-Definition prox_ok (l1 beta alpha l2 : float) (z n w : float) : bool :=
-  if PrimFloat.leb (fabs z) l1 then PrimFloat.eqb w 0
+   w * denominator is compared with the numerator over Q (the square root is the correctly rounded float one).
+   Where the denominator is exactly zero (beta = 0, l2 = 0, n = 0: finding F-C15-2) the IEEE value of the closed
+   form is the infinity of the numerator's sign, and that is what is demanded - the state it leads to is
+   rejected by bit 32768. *)
+Definition prox_ok (tsc : Q) (l1 beta alpha l2 : float) (z n w : float) : bool :=
+  if negb (f64_finite z) then true        (* a non-finite state is reported by bit 32768 *)
+  else if PrimFloat.leb (fabs z) l1 then PrimFloat.eqb w 0
   else
     let s : Q := if PrimFloat.ltb z 0 then (-1)%Q else 1%Q in
     let den := ((f64_Q (PrimFloat.sqrt n) + f64_Q beta) / f64_Q alpha + f64_Q l2)%Q in
-    f64_finite w &&
-    Qle_bool (Qabs' (f64_Q w * den - (s * f64_Q l1 - f64_Q z))) (tol32 * (1 + Qabs' (f64_Q z) + f64_Q l1)).
-Definition prox_all (c : fcase) (z n w : list float) : bool :=
-  forallb (fun t => let '(zj, nj, wj) := t in prox_ok (fc_l1 c) (fc_beta c) (fc_alpha c) (fc_l2 c) zj nj wj) (zip3 z n w).
+    if Qeq_bool den 0 then f64_biteq w (if PrimFloat.ltb z 0 then infinity else neg_infinity)
+    else
+      f64_finite w &&
+      Qle_bool (Qabs' (f64_Q w * den - (s * f64_Q l1 - f64_Q z))) (tsc * tol32 * (1 + Qabs' (f64_Q z) + f64_Q l1)).
+Definition prox_all (tsc : Q) (c : fcase) (z n w : list float) : bool :=
+  forallb (fun t => let '(zj, nj, wj) := t in prox_ok tsc (fc_l1 c) (fc_beta c) (fc_alpha c) (fc_l2 c) zj nj wj) (zip3 z n w).
 
 Definition Qgrad (j : nat) (s : fstep) : Q :=
   let ep := emin_of (fs_p s) in
@@ -316,7 +377,7 @@ Definition Qgrad (j : nat) (s : fstep) : Q :=
   inject_Z (Zsum (map (fun t => let '(r, y, p) := t in
                                 ((toZ ep p - (if y : bool then one_p else 0)) * toZ ex (nth j r 0%float))%Z)
                       (zip3 (fs_X s) (fs_y s) (fs_p s)))) * Qpow2 (ep + ex).
-Fixpoint ftrl_oracle_go (c : fcase) (z n w : list float) (steps : list fstep) : N :=
+Fixpoint ftrl_oracle_go (tsc : Q) (c : fcase) (z n w : list float) (steps : list fstep) : N :=
   match steps with
   | [] => 0%N
   | s :: r =>
@@ -326,8 +387,9 @@ Fixpoint ftrl_oracle_go (c : fcase) (z n w : list float) (steps : list fstep) : 
                    && forallb f64_finite (fs_z s) && forallb f64_finite (fs_n s) in
       let wz := forallb (fun zw => zero_iff (fc_l1 c) (fst zw) (snd zw)) (combine (fs_z s) (fs_w s)) in
       let nq := forallb (fun j => let g := Qgrad j s in
+                                  f64_finite (nth j (fs_n s) nan) &&
                                   Qle_bool (Qabs' (f64_Q (nth j (fs_n s) nan) - (f64_Q (nth j n nan) + g * g)))
-                                           (tol32 * (1 + f64_Q (nth j n nan) + g * g))) js in
+                                           (tsc * tol32 * (1 + f64_Q (nth j n nan) + g * g))) js in
       let zq := forallb (fun j =>
                   let g := Qgrad j s in
                   let nj := nth j n nan in
@@ -337,17 +399,17 @@ Fixpoint ftrl_oracle_go (c : fcase) (z n w : list float) (steps : list fstep) : 
                   let sg := PrimFloat.div (PrimFloat.sub (PrimFloat.sqrt (nth j (fs_n s) nan)) (PrimFloat.sqrt nj))
                                           (fc_alpha c) in
                   let expect := (f64_Q zj + g - f64_Q sg * f64_Q wj)%Q in
-                  f64_finite sg &&
+                  f64_finite sg && f64_finite wj && f64_finite zj && f64_finite (nth j (fs_z s) nan) &&
                   Qle_bool (Qabs' (f64_Q (nth j (fs_z s) nan) - expect))
-                           (tol32 * (1 + Qabs' (f64_Q zj) + Qabs' g + Qabs' (f64_Q sg * f64_Q wj)))) js in
+                           (tsc * tol32 * (1 + Qabs' (f64_Q zj) + Qabs' g + Qabs' (f64_Q sg * f64_Q wj)))) js in
       N.lor (flag shape 32768 + flag wz 4096 + flag nq 8192 + flag zq 16384
-             + flag (prox_all c (fs_z s) (fs_n s) (fs_w s)) 16777216)%N
-            (ftrl_oracle_go c (fs_z s) (fs_n s) (fs_w s) r)
+             + flag (prox_all tsc c (fs_z s) (fs_n s) (fs_w s)) 16777216)%N
+            (ftrl_oracle_go tsc c (fs_z s) (fs_n s) (fs_w s) r)
   end.
-Definition ftrl_oracle (c : fcase) : N :=
+Definition ftrl_oracle (tsc : Q) (c : fcase) : N :=
   N.lor (flag (forallb (fun zw => zero_iff (fc_l1 c) (fst zw) (snd zw)) (combine (fc_z0 c) (fc_w0 c))) 4096
-         + flag (prox_all c (fc_z0 c) (fc_n0 c) (fc_w0 c)) 16777216)%N
-        (ftrl_oracle_go c (fc_z0 c) (fc_n0 c) (fc_w0 c) (fc_steps c)).
+         + flag (prox_all tsc c (fc_z0 c) (fc_n0 c) (fc_w0 c)) 16777216)%N
+        (ftrl_oracle_go tsc c (fc_z0 c) (fc_n0 c) (fc_w0 c) (fc_steps c)).
 
 (** * cases *)
 Inductive body := NB (c : nbcase) | KM (c : kcase) | FT (c : fcase).
@@ -356,8 +418,9 @@ Record case := { c_id : N; c_body : body }.
 Definition run_case (c : case) : verdict :=
   (c_id c,
    match c_body c with
-   | NB b => (nb_corr b, nb_oracle b)
-   | KM b => (km_corr b, km_oracle b)
-   | FT b => (ftrl_corr b, ftrl_oracle b)
+   | NB b => if n_f32 b then (nb_corr x32 b, nb_oracle x32 b) else (nb_corr x64 b, nb_oracle x64 b)
+   | KM b => if kc_f32 b then (km_corr x32 b, km_oracle x32 b) else (km_corr x64 b, km_oracle x64 b)
+   | FT b => if fc_f32 b then (ftrl_corr x32 b, ftrl_oracle (x_tsc x32) b)
+             else (ftrl_corr x64 b, ftrl_oracle (x_tsc x64) b)
    end).
 Definition run_cases (cs : list case) : list N := report (map run_case cs).
